@@ -320,7 +320,10 @@ def structural(exe, aggs, d, files):
     # variadic marker position at call sites and definitions (C23 '(...)' included: the references cannot compile it, the IL is inspected)
     probes += ('int vz0(...); int vz1(int, ...); int vz2(int, double, ...); int vn2(int, double);\n'
                'int vzc(void) { return vz0() + vz0(1.5, 2) + vz1(1) + vz1(1, 2.5) + vz2(1, 2.0) + vz2(1, 2.0, 3, 4.0) + vn2(1, 2.0); }\n'
-               'int vzd0(...) { return 0; } int vzd1(int a, ...) { return a; } int vnd(int a) { return a; }\n')
+               'int vzd0(...) { return 0; } int vzd1(int a, ...) { return a; } int vnd(int a) { return a; }\n'
+               # unnamed (C23) aggregate parameters of types not mentioned before, in definitions
+               'struct un1 { double x, y; long n; }; union un2 { float f; char c[3]; }; struct un3 { char c; };\n'
+               'long unp1(struct un1, long n) { return n; } long unp2(int a, union un2, struct un3, double d) { return a + (long)d; }\n')
     for t in common.TARGETS:
         robj, rrej, rerr = dataref.ref_images('clang', t, rprefix, lay, d, 'lay' + t)
         if robj is None or rrej:
@@ -335,6 +338,12 @@ def structural(exe, aggs, d, files):
         for f in m.funcs:
             if f.name in ('vzd0', 'vzd1', 'vnd') and f.variadic != (f.name != 'vnd'):
                 recs.append({'kind': 'type', 'target': t, 'tag': f.name, 'ok': False, 'size': 0, 'union': False, 'hasbf': False, 'detail': 'variadic marker of the definition of %s is wrong' % f.name, 'files': {'probe.c': probes}})
+            if f.name in ('unp1', 'unp2'):
+                wantp = {'unp1': [True, False], 'unp2': [False, True, True, False]}[f.name]
+                gotp = [ty[0] == ':' for ty, _ in f.params]
+                if gotp != wantp:
+                    recs.append({'kind': 'type', 'target': t, 'tag': f.name, 'ok': False, 'size': 0, 'union': False, 'hasbf': False, 'files': {'probe.c': probes},
+                                 'detail': 'parameters of %s have classes %s: unnamed aggregate parameters are not passed as aggregates' % (f.name, [ty for ty, _ in f.params])})
             if f.name != 'vzc':
                 continue
             for b in f.blocks:
